@@ -19,16 +19,16 @@ CHECKS = {
     "C02": dict(engine="conn", design="5 C02", technique="TLC model checking of Conn.tla + exhaustive behaviour replay + TLC trace validation against ConnProps.tla",
                 text="All intents x secret configured or not x 15 cookie classes (absent, empty, truncations, bit flips of tag and body, other secret, other IP, other port, "
                      "expired, just inside, non-JSON / truncated / incomplete JSON under a valid tag, fresh) are enumerated by TLC, built with an independent HMAC, "
-                     "replayed, and the recorded histories judged by TLC: should_authenticate flag, fallback to authentication, verdict required, identity from the cookie.",
+                     "replayed, and the recorded histories judged by TLC: should_authenticate flag, fallback to authentication, verdict required, identity from the cookie. Also: two-connection histories in which the cookie the server ISSUED is presented again (within / beyond the expiry, from another address, after the secret was rotated or removed); an altered body under the tag of a genuine cookie that this process accepted a moment earlier; a cookie signed with the empty key when no secret is configured; look-alike addresses (::a.b.c.d); application stage: the age that counts is the age when the cookie is PRESENTED (a client idling inside the connection).",
                 note=CONN_NOTE),
     "C03": dict(engine="conn", design="5 C03", technique="TLC model checking of Conn.tla + exhaustive behaviour replay + TLC trace validation against ConnProps.tla",
                 text="Every discovery list (empty, duplicates, IPv4/IPv6, error) x filter outcome x strategy outcome (first, last, outside the candidates, none, error) x client locale "
-                     "is enumerated by TLC and replayed; TLC judges candidate hand-over, the single final Transfer to the chosen address, the localized Disconnect, no Transfer on failure.",
+                     "is enumerated by TLC and replayed; TLC judges candidate hand-over, the single final Transfer to the chosen address, the localized Disconnect, no Transfer on failure. Also: C03_EveryStageConsulted (the Transfer / no-target Disconnect only after discovery, filters AND strategy were consulted, an empty list included); application stages: configured localization tables through passage::start, and the final packet whatever its size under a small configured maximum frame length.",
                 note=CONN_NOTE),
     "C04": dict(engine="conn", design="5 C04", technique="TLC enumeration of malformed-frame classes at every protocol step + replay with counting allocator + TLC trace validation",
                 text="At every await of the handler TLC places every malformed class (negative/zero/oversize/2^31-1/over-long outer length, truncated frame, EOF, negative/huge/"
                      "beyond-frame inner length, invalid UTF-8, short body, bad ordinal) and every unexpected packet kind; the real handler is run on the concrete bytes "
-                     "(before and after encryption) under a counting allocator; TLC judges: no panic, ends by itself, nothing runs after EOF, largest allocation <= 4*max+64KiB, no reply, error.",
+                     "(before and after encryption) under a counting allocator; TLC judges: no panic, ends by itself, nothing runs after EOF, largest allocation <= 4*max+64KiB, no reply, error. Also: unusual reported locales on complete logins (multi-byte before '_', thousands of '_') with C04_ProportionateMemory (peak live bytes of the handler thread); frames split around a keep-alive tick followed by an oversize frame under virtual time.",
                 note=CONN_NOTE + " Memory is measured (largest single request), not proved."),
     "C05": dict(engine="cipher", design="5 C05", technique="TLC model checking of Cipher.tla (poll-level: Pending / partial accept / read sizes / switch point) + replay of every schedule against the real CipherStream with an independent CFB8 + TLC trace validation",
                 text="TLC enumerates every poll schedule for small writes (inner transport returns Pending, accepts any prefix; reads of every size down to one byte into "
@@ -41,7 +41,7 @@ CHECKS = {
     "C06": dict(engine="conn", design="5 C06", technique="TLC model checking of Conn.tla (all serverbound kind sequences to termination) + replay + TLC trace validation",
                 text="TLC enumerates all sequences of serverbound packet kinds of all phases (17 kinds, by wire id per phase) up to the depth at which the connection has ended; "
                      "each is replayed; TLC judges the clientbound order language, Login Success only after an honest response, routing only after Login Acknowledged and Client "
-                     "Information, the status exchange, silent termination on deviations.",
+                     "Information, the status exchange, silent termination on deviations. Also: after a deviation the handler must have ENDED (a client that carries on is answered by nobody); application stage: a client that stops at any point of the script receives nothing more until the server closes at its deadline.",
                 note=CONN_NOTE),
     "C07": dict(engine="timed", design="5 C07", technique="TLC model checking of ConnTimed.tla (tokio Skip interval, echo policies, stage latencies) + every schedule run on the real Connection under tokio virtual time + TLC trace validation against ConnTimedProps.tla",
                 text="TLC enumerates every combination of authentication latency (late first tick), arrival of Login Acknowledged and Client Information, three routing-stage latencies (0 to 3 "
@@ -123,7 +123,7 @@ CHECKS = {
                      "ipaddress). Not judged: DNS host names, zone ids and inet_aton spellings in Address.hostname; the protocol number and the status service are drift notes only."),
     "C10": dict(engine="conn", design="5 C10", technique="TLC model checking of two-connection histories (Conn.tla, MaxRounds=2) + replay presenting the stored bytes + TLC trace validation",
                 text="TLC enumerates two-connection histories (authenticate and get transferred; reconnect with exactly the stored bytes after a change of IP / age / secret); the "
-                     "harness checks the issued cookie with an independent HMAC and generic JSON parsing; TLC judges issue conditions, contents, and acceptance on the next transfer.",
+                     "harness checks the issued cookie with an independent HMAC and generic JSON parsing; TLC judges issue conditions, contents, and acceptance on the next transfer. Also: identity variants (nil UUID, empty name, a profile without properties).",
                 note=CONN_NOTE + " 'beyond expiry' is realised with expiry 1 s and a real 2.2 s pause."),
     "C20": dict(engine="agones", design="5 C20",
                 technique="TLC model checking of Agones.tla (API server, LIST/WATCH protocol, kube watcher, event handler, cache) + TLC-exported histories replayed through a loopback mock Kubernetes API into the real AgonesDiscoveryAdapter + TLC trace validation against AgonesProps.tla",
